@@ -511,7 +511,11 @@ func RunSegmented(spec SegmentSpec) vx.Out {
 	}
 	defer w.Release()
 	x := w.Dial("x")
-	if f := x.Identify(map[string]interface{}{"client_id": "x", "output_buffer_size": -1, "heartbeat_interval": 1000}); string(f.Data) != "OK" {
+	ident := map[string]interface{}{"client_id": "x", "output_buffer_size": -1}
+	if spec.Between == "heartbeat" {
+		ident["heartbeat_interval"] = 1000
+	}
+	if f := x.Identify(ident); string(f.Data) != "OK" {
 		return vx.Out{Obs: "identify refused", Viol: []vx.Found{{Sig: "INFRA identify :: segmented", Detail: f.String()}}}
 	}
 	x.Cmd("SUB t c", nil)
@@ -563,8 +567,10 @@ func RunSegmented(spec SegmentSpec) vx.Out {
 		w.Sleep(1100 * time.Millisecond)
 	}
 	x.Raw(all[cut:])
+	x.Cmd("NOP", nil) // (any traffic counts as the answer to a heartbeat)
 	w.Quiesce()
-	w.Sleep(200 * time.Millisecond)
+	// a deferred publish is handed over by the next queue scans
+	w.Sleep(1300 * time.Millisecond)
 	var got [][]byte
 	okSeen, closed := false, false
 	for _, f := range x.Take() {
